@@ -260,7 +260,8 @@ func fanShapes(e *Engine, full bool) []fanShape {
 		{13, m16 + 1, 0}, {12, m16 + 1, 0}, // node48 -> node16 threshold
 		{38, m48 + 1, 0}, {37, m48 + 1, 0}, // node256 -> node48 threshold
 		{38, m48 + 1, 1}, {13, m16 + 1, 1}, {m4, m4 + 1, 1}, // the same, deleting the smallest bytes
-		{256, 0, 0}, // every byte value present: the uint8 fan-out counter of the node256 wraps to 0
+		{m48 - 1, m48, 0}, {m16 - 1, m16, 1}, // a class filled to its limit, one child removed: the next add must find the freed slot
+		{256, 0, 0},              // every byte value present: the uint8 fan-out counter of the node256 wraps to 0
 		{2, m16, 0}, {6, m16, 2}, // a node16 that was full (every lane written), shrunk: stale lanes above the fan-out
 	}
 	if full {
